@@ -471,6 +471,8 @@ struct Anchor {
     err: Option<J>,
     null_input: bool,
     exit_status_flag: bool,
+    /// the recorded run prints one compact value per line (`-c`, no -a/-S): text laws apply
+    compact_text: bool,
 }
 
 const BANNED: &[&str] = &["input", "inputs", "halt", "halt_error", "$__loc__", "input_line_number", "debug", "stderr", "env", "$ENV", "now", "localtime", "input_filename", "$__prog_args", "import", "include", "modulemeta", "get_search_list", "builtins"];
@@ -574,7 +576,7 @@ fn build_anchors(goldens: &[Golden], probes: &[Probe], known_g: &BTreeSet<String
                 continue;
             }
         };
-        out.push(Anchor { id: format!("golden:{}", g.name), args: g.args.iter().filter(|a| !a.is_empty()).cloned().collect(), filter: g.filter.clone(), input: g.input.clone(), ys: Some(vals.into_iter().zip(texts).collect()), err, null_input, exit_status_flag: eflag });
+        out.push(Anchor { id: format!("golden:{}", g.name), args: g.args.iter().filter(|a| !a.is_empty()).cloned().collect(), filter: g.filter.clone(), input: g.input.clone(), ys: Some(vals.into_iter().zip(texts).collect()), err, null_input, exit_status_flag: eflag, compact_text: compact && plain_text });
     }
     for p in probes {
         if known_p.contains(&p.id) {
@@ -589,7 +591,7 @@ fn build_anchors(goldens: &[Golden], probes: &[Probe], known_g: &BTreeSet<String
             skip("probe: input is not exactly one JSON document");
             continue;
         }
-        out.push(Anchor { id: format!("probe:{}", p.id), args: vec!["-c".into()], filter: p.filter.clone(), input: p.input.clone(), ys: None, err: Some(J::Str(p.msg.clone())), null_input: false, exit_status_flag: false });
+        out.push(Anchor { id: format!("probe:{}", p.id), args: vec!["-c".into()], filter: p.filter.clone(), input: p.input.clone(), ys: None, err: Some(J::Str(p.msg.clone())), null_input: false, exit_status_flag: false, compact_text: true });
     }
     out
 }
@@ -903,7 +905,7 @@ fn check_meta(c: &MetaCase, st: &mut Stats) -> Result<(), Fail> {
         }
     }
     // text, when every expected value carries its recorded text
-    if let Some(txt) = exp_ys.iter().map(|x| x.1.clone()).collect::<Option<Vec<String>>>() {
+    if let (true, Some(txt)) = (c.anchor.compact_text, exp_ys.iter().map(|x| x.1.clone()).collect::<Option<Vec<String>>>()) {
         let mut want = txt.join("\n");
         if !txt.is_empty() {
             want.push('\n');
